@@ -2,7 +2,9 @@ package gbn
 
 import (
 	"context"
+	"fmt"
 	"io"
+	"math"
 	"time"
 )
 
@@ -139,6 +141,14 @@ handshakeLoop:
 
 		g.log.Debugf("Received client SYN. Sending back.")
 		n = msg.(*PacketSYN).N
+
+		// The sequence space s = n + 1 must fit in a uint8 and the
+		// window must hold at least one packet, so n = 0 and n = 255
+		// cannot be used, whatever the client proposes.
+		if n == 0 || n == math.MaxUint8 {
+			return fmt.Errorf("client proposed unusable window "+
+				"size n=%d", n)
+		}
 
 		// Send SYN back
 		syn := &PacketSYN{N: n}
